@@ -32,8 +32,18 @@ the geometry definition, never calling ORANGE) and by tolerant numeric compariso
                  direction, so that nearly tangent turns remain judgeable.
   f_pos   T/F    reported position == position implied by the operations (1e-9 relative)
   rays_ok/nrays, sphere_ok  (Safety) every ray later shot from the same point travels at
-                 least the safety; no valid point of the sphere of radius s(1-1e-6) in 26+ directions
-                 lies in another volume
+                 least the safety; no valid point of the sphere of radius s(1-1e-6) in 26+38 directions
+                 plus directions AIMED at the nearest points of the surrounding surfaces lies in
+                 another volume
+  near_ok/nnear  (Safety) s <= every confirmed upper bound of the true distance to the volume's
+                 boundary: the oracle computes, for each nearby surface of every level, a point ON
+                 that surface close to the track (closest-point iteration on the quadric, LOCAL
+                 coordinates of that level) and confirms by point location just beyond it that the
+                 volume path changes there
+
+    navfacts.py plan <file.org.json> <seed> <n> <plan.json>
+writes n probe points for the harness: interior points pushed towards nearby surfaces (curved and
+non-simple ones preferred), each with ray directions aimed at the nearest surface points.
 U = the oracle's validity gate discarded a point (near a surface, overlapping volumes as in
 universes.org.json, gap) -- such facts are never judged; they are counted.
 
@@ -230,8 +240,20 @@ def run(geofile, raw, outpath):
                 for _ in range(38):
                     v = rng.normal(size=3)
                     us.append(v / np.linalg.norm(v))
+                # aimed directions: towards the nearest points of the surrounding surfaces (independent
+                # closest-point computation of the oracle), each with a small cone of neighbours
+                near = an.geo.nearest_dirs(pos)[:6]
+                for (dk, uk, _lev, _st) in near:
+                    us.append(uk)
+                    for _ in range(4):
+                        v = uk + 0.1 * rng.normal(size=3)
+                        us.append(v / np.linalg.norm(v))
                 P["sphere0"] = an.q(pos)
                 P["sphere"] = [an.q(pos + s * (1 - 1e-6) * u) for u in us]
+                # explicit upper bounds of the true distance to the boundary of the point's volume: the
+                # surface point found at distance dk along uk bounds the volume there iff the volume path
+                # changes just beyond it
+                P["near"] = [(dk, an.q(pos + (dk + 2 * eps_at(pos)) * uk)) for (dk, uk, _lev, _st) in near]
         # logical point after the operation
         if ph == "I":
             P["logical"] = an.q(pos)
@@ -351,6 +373,15 @@ def run(geofile, raw, outpath):
                         o["sphere_ok"] = "U"
                         o["nsphere"] = 0
                     o["spos"] = bool(s is not None and s > 0)
+                    bounds = []
+                    if "near" in P:
+                        k0 = an.key(P["sphere0"])
+                        for dk, qi in P["near"]:
+                            kq = an.key(qi)
+                            if k0 is not None and kq is not None and kq != k0:
+                                bounds.append(dk)
+                    o["nnear"] = len(bounds)
+                    o["near_ok"] = bool(s is None or all(s <= dk * (1 + REL) + 1e-12 for dk in bounds))
                 for k in ("f_vol", "f_out", "f_same", "f_change", "f_rev", "sphere_ok", "f_dec"):
                     if k in o:
                         nfacts[o[k]] = nfacts.get(o[k], 0) + 1
@@ -360,7 +391,58 @@ def run(geofile, raw, outpath):
             "union_boundary": bool(an.geo.has_union_boundary_daughter)}
 
 
+def plan(geofile, seed, n, outpath):
+    geo = oracle_geo.OracleGeo(geofile)
+    rng = np.random.default_rng(seed)
+    bb = geo.world_bbox
+    out = []
+    if bb is None or n <= 0:
+        json.dump(out, open(outpath, "w"))
+        return {"points": 0}
+    lo, hi = np.array(bb[0], float), np.array(bb[1], float)
+    if not (np.all(np.isfinite(lo)) and np.all(np.isfinite(hi))) or np.any(hi - lo > 1e8):
+        json.dump(out, open(outpath, "w"))
+        return {"points": 0}
+    tries = 0
+    curved_first = lambda st: 0 if st in ("kx", "ky", "kz", "sq", "gq") else (1 if st not in ("px", "py", "pz", "p", "grid") else 2)
+    while len(out) < n and tries < 40 * n:
+        tries += 1
+        p0 = lo + (hi - lo) * rng.uniform(0.02, 0.98, size=3)
+        r0 = geo.locate(p0[None, :])[0]
+        if not r0["valid"] or r0["outside"]:
+            continue
+        near = geo.nearest_dirs(p0)[:6]
+        if not near:
+            continue
+        near.sort(key=lambda c: (curved_first(c[3]), c[0]))
+        dk, uk, _lev, _st = near[int(rng.integers(0, min(3, len(near))))]
+        back = min(dk * rng.uniform(0.05, 0.6), dk - 1e-3 * max(1.0, float(np.abs(p0).max())))
+        if back <= 0:
+            continue
+        p = p0 + (dk - back) * uk
+        r1 = geo.locate(p[None, :])[0]
+        if not r1["valid"] or r1["outside"] or r1["path"] != r0["path"]:
+            continue
+        dirs = []
+        for (d2, u2, _l, _s) in geo.nearest_dirs(p)[:4]:
+            dirs.append([float(x) for x in u2])
+            for _ in range(2):
+                v = u2 + 0.08 * rng.normal(size=3)
+                v /= np.linalg.norm(v)
+                dirs.append([float(x) for x in v])
+        out.append({"p": [float(x) for x in p], "dirs": dirs})
+    json.dump(out, open(outpath, "w"))
+    return {"points": len(out)}
+
+
 if __name__ == "__main__":
+    if sys.argv[1] == "plan":
+        try:
+            print(json.dumps(plan(sys.argv[2], int(sys.argv[3]), int(sys.argv[4]), sys.argv[5])))
+        except oracle_geo.Unsupported as ex:
+            json.dump([], open(sys.argv[5], "w"))
+            print(json.dumps({"unsupported": str(ex)}))
+        sys.exit(0)
     try:
         info = run(sys.argv[1], sys.argv[2], sys.argv[3])
     except oracle_geo.Unsupported as ex:
